@@ -46,7 +46,7 @@ static inline struct vs_str vs_str_ctor_fill(size_t n, char ch)
     r.data[n] = 0;
     return r;
 }
-static inline struct vs_str *vs_str_assign_move(struct vs_str *dst, struct vs_str src) { *dst = src; return dst; }
+static inline struct vs_str *vs_str_assign_move(struct vs_str *dst, const struct vs_str *src) { *dst = *src; return dst; }
 static inline void vs_str_shrink_to_fit(struct vs_str *s) { (void)s; }
 
 static inline size_t vs_bytes_size(const struct vs_bytes *v) { return v->size; }
@@ -67,6 +67,6 @@ static inline struct vs_bytes vs_bytes_ctor_fill(size_t n, unsigned char value)
     r.size = n;
     return r;
 }
-static inline struct vs_bytes *vs_bytes_assign_move(struct vs_bytes *dst, struct vs_bytes src) { *dst = src; return dst; }
+static inline struct vs_bytes *vs_bytes_assign_move(struct vs_bytes *dst, const struct vs_bytes *src) { *dst = *src; return dst; }
 static inline void vs_bytes_shrink_to_fit(struct vs_bytes *v) { (void)v; }
 #endif
